@@ -4,6 +4,7 @@ CONSTANTS
   Vals <- MCVals
   Preds <- MCPreds
   Ops <- MCOps
+  Bulks <- MCBulks
   MaxList = @MAXLIST@
   MinList = @MINLIST@
   MaxOps = @MAXOPS@
